@@ -170,10 +170,10 @@ m = {
         "add_only": True,
     },
     "engines": [
-        {"name": "M mirfacts", "path": "tools/mirfacts", "serves_properties": ["C02", "C06", "C10", "C13", "C14"], "kind_free_text": "rustc_private driver (RUSTC_WORKSPACE_WRAPPER under cargo +nightly check through tools/shim/rustc): MIR CFG, resolved callees, assert kinds, types; analyses in vlib/mir.py, vlib/rules_panic.py"},
+        {"name": "M mirfacts", "path": "tools/mirfacts", "serves_properties": ["C01", "C02", "C06", "C09", "C10", "C13", "C14", "C17"], "kind_free_text": "rustc_private driver (RUSTC_WORKSPACE_WRAPPER under cargo +nightly check through tools/shim/rustc): MIR CFG, resolved callees, assert kinds, types; analyses in vlib/mir.py, vlib/rules_panic.py"},
         {"name": "W witness", "path": "tools/witness", "serves_properties": ["C09", "C14"], "kind_free_text": "harness crate path-depending on /repo, compiled by nightly rustc: auto-trait reachability witnesses and compile_fail twins (vlib/witness.py)"},
         {"name": "S srcfacts", "path": "tools/srcfacts", "serves_properties": sorted(CLAIMED), "kind_free_text": "syn 2 syntax-tree dump (JSON) of /repo/src/*.rs; provenance resolver, raw-text taint / origin queries (vlib/taint.py), validator exemption table (vlib/rules_skips.py) and rules in vlib/*.py"},
-        {"name": "K skeleton", "path": "vlib/bashparse.py", "serves_properties": ["C01", "C07", "C12", "C17"], "kind_free_text": "assembles the bash program that bash.rs prints (templates + guard flags, vlib/emission.py), parses it (vlib/bashparse.py), infers text/clean dimensions of its variables (vlib/shdims.py); rules in props/sk_bash.py; nothing is executed"},
+        {"name": "K skeleton", "path": "vlib/bashparse.py", "serves_properties": ["C01", "C07", "C09", "C12", "C17"], "kind_free_text": "assembles the bash program that bash.rs prints (templates + guard flags, vlib/emission.py), parses it (vlib/bashparse.py), infers text/clean dimensions of its variables (vlib/shdims.py); rules in props/sk_bash.py; nothing is executed"},
         {"name": "X transducer", "path": "vlib/xducer.py", "serves_properties": ["C07", "C16"], "kind_free_text": "decides decode(encode(s)) = s, closed and inert, for ALL strings: the repo's replace-chain encoder (extracted from the syntax tree on every run) composed with a transcription of the target's quoted-string rules (bash, zsh, fish, PowerShell, Graphviz)"},
     ],
     "checks": checks,
